@@ -260,6 +260,7 @@ func (e *Engine) verifyFunc(name string, forceSafety bool) (res *FuncResult) {
 	if vc.contract != nil {
 		vc.usesOnlyObligations(fn, vc.contract)
 		vc.betweenObligations(fn, vc.contract)
+		vc.pairedObligations(fn, vc.contract)
 		if vc.contract.NoBody {
 			return
 		}
